@@ -439,7 +439,8 @@ pub fn kill_child_main(dir: &str, scenario_file: &str) -> i32 {
 }
 
 fn kill_scenario() -> impl Strategy<Value = Scenario> {
-	mixed_cfg(3, false).prop_flat_map(|cfg| {
+	(mixed_cfg(3, false), 0u8..3).prop_flat_map(|(mut cfg, af)| {
+		cfg.always_flush = af > 0;
 		proptest::collection::vec(mixed_items(&cfg, 12, 40_000, 6, 3).prop_map(Op::Commit), 3..25).prop_map(move |ops| Scenario { cfg: cfg.clone(), ops })
 	})
 }
